@@ -25,10 +25,10 @@ def bf(x, path, f):
     return [["build_file", x, path, "METADATA", f, [], {}], ["ret", ["var", x]]]
 
 
-def scen(name, funcs, blocks, pre=None, post_fail=False):
+def scen(name, funcs, blocks, pre=None, post_fail=False, rebuilds=2):
     root = [["par", blocks, "r"]] + ([["raise", 9]] if post_fail else [["ret", ["var", "r"]]])
     ok_root = [["par", blocks, "r"], ["ret", ["var", "r"]]]
-    hist = (pre or []) + [["build", {}, root], ["build", {}, ok_root], ["build", {}, ok_root], ["clean", None]]
+    hist = (pre or []) + [["build", {}, root]] + [["build", {}, ok_root]] * rebuilds + [["clean", None]]
     return {"cache": ["cache"], "name": "n", "funcs": funcs, "history": hist, "tag": name}
 
 
@@ -45,6 +45,14 @@ def scenarios():
         scen("hash-two-files", dict(F, wa={"*": [["write", ["arg", 0]], ["ret", ["lit", 1]]]}),
              [[["build_file", "a", ["N", "a"], "HASH", "wa", ["AAAA-first-content"], {}], ["ret", ["var", "a"]]],
               [["build_file", "b", ["N", "b"], "HASH", "wa", ["BBBB-second-content-longer"], {}], ["ret", ["var", "b"]]]]),
+        # a cached operation is re-applied (its directories re-registered) while another thread's output in the same
+        # directory fails: always explored at bound 2
+        scen("first-fails-reuse-other", dict(F, sa={"*": [["build_file", "x", ["N", "a"], "METADATA", "w", [], {}], ["ret", ["var", "x"]]]}),
+             [bf("b", ["N", "b"], "fa"), [["subbuild", "s", "sa", [], {}], ["ret", ["var", "s"]]]],
+             pre=[["build", {}, [["subbuild", "s", "sa", [], {}], ["ret", ["var", "s"]]]]], rebuilds=0),
+        scen("first-fails-reuse-first", dict(F, sa={"*": [["build_file", "x", ["N", "a"], "METADATA", "w", [], {}], ["ret", ["var", "x"]]]}),
+             [[["subbuild", "s", "sa", [], {}], ["ret", ["var", "s"]]], bf("b", ["N", "b"], "fb")],
+             pre=[["build", {}, [["subbuild", "s", "sa", [], {}], ["ret", ["var", "s"]]]]], rebuilds=0),
         scen("both-fail", F, [bf("a", ["N", "a"], "fb"), bf("b", ["N", "b"], "fa")]),
         scen("one-does-not-create", F, [bf("a", ["N", "a"], "nc"), bf("b", ["N", "b"], "w")]),
         scen("nested-parents", F, [bf("a", ["N", "M", "a"], "w"), bf("b", ["N", "b"], "w")]),
@@ -77,13 +85,26 @@ def t3(rep, tier, budget=1):
     total = 0
     for case in scenarios():
         deep = case["tag"].startswith("first-fails")
-        ref, bad, n = conc.explore(case, t2.workdir, bound=2 if deep else bound, limit=max(limit, 3000) if deep or bound == 2 else limit)
+        ref, bad, n = conc.explore(case, t2.workdir, bound=2 if deep else bound, limit=(8000 if case["tag"].startswith("first-fails-reuse") else max(limit, 3000)) if deep or bound == 2 else limit)
         total += n
         rep.extra.setdefault("schedules", {})[case["tag"]] = n
         rep.evaluations += n
         for k in range(n):
             rep.nontrivial.add((case["tag"], k)) if k > 0 else None
-        for choices, obs, info in bad[:3]:
+        # look at more than three failing schedules and report those that do not match a known finding first
+        # (a change that adds a new way to fail must not hide behind a finding that fails the same way)
+        annotated = []
+        for choices, obs, info in bad[:40]:
+            fx = {}
+            if obs is not None and not info["deadlock"]:
+                try:
+                    fx = stale_memo_facts(case, choices, t2.workdir)
+                except Exception as e:      # noqa
+                    fx = {"error": repr(e)}
+            annotated.append((bool(fx.get("stale_dir_memo_after_release")), choices, obs, info, fx))
+        annotated.sort(key=lambda a: a[0])
+        picked = [a for a in annotated if not a[0]][:3] + [a for a in annotated if a[0]][:1]
+        for _known, choices, obs, info, facts0 in picked:
             diff = None
             if obs is not None:
                 ps = [i for i, s in enumerate(case["history"]) if s[0] == "build" and conc._has_par(s[2], case)]
@@ -92,7 +113,9 @@ def t3(rep, tier, budget=1):
                     if x != y:
                         diff = {"step": i, "sequential": x, "concurrent": y}
                         break
+            facts = facts0
             fails.append({"oracle": "every schedule equals the sequential run", "scenario": case["tag"], "schedule": choices,
+                          "signature_facts": facts,
                           "deadlock": info["deadlock"], "difference": diff, "case": case,
                           "trace_tail": [list(x) for x in info.get("trace", [])[-30:]]})
     if tier == "thorough":
@@ -118,7 +141,52 @@ def stress(rep):
     return fails
 
 
+def stale_memo_facts(case, choices, workdir):
+    """Re-runs one schedule with harness-side wrappers around three BuildDirs methods and reports whether it
+    contains the pattern of the known finding: a thread asks is_removed_norm_case(d) (answer False because another
+    thread holds a reservation on d), that other thread's error_building_file releases d (d becomes error-created),
+    and only then the first thread memoises "d exists" (handle_norm_cased_dir_exists)."""
+    import threading
+    common.import_repo()
+    from file_builder.build_dirs import BuildDirs
+    ev = []
+    orig = (BuildDirs.is_removed_norm_case, BuildDirs.handle_norm_cased_dir_exists, BuildDirs.error_building_file)
+
+    def w_isrem(self, d):
+        r = orig[0](self, d)
+        ev.append(("isrem", threading.get_ident(), d, r))
+        return r
+
+    def w_handle(self, d):
+        ev.append(("handle", threading.get_ident(), d, None))
+        return orig[1](self, d)
+
+    def w_error(self, filename):
+        r = orig[2](self, filename)
+        ev.append(("error", threading.get_ident(), None, set(self._error_created_dirs)))
+        return r
+    BuildDirs.is_removed_norm_case, BuildDirs.handle_norm_cased_dir_exists, BuildDirs.error_building_file = w_isrem, w_handle, w_error
+    try:
+        conc.run_case(case, workdir, "sched", tuple(choices))
+    finally:
+        BuildDirs.is_removed_norm_case, BuildDirs.handle_norm_cased_dir_exists, BuildDirs.error_building_file = orig
+    hit = False
+    for k, (kind, th, d, _x) in enumerate(ev):
+        if kind != "handle":
+            continue
+        last = [i for i in range(k) if ev[i][0] == "isrem" and ev[i][1] == th and ev[i][2] == d]
+        if not last or ev[last[-1]][3] is not False:
+            continue
+        i = last[-1]
+        if any(ev[j][0] == "error" and ev[j][1] != th and d in ev[j][3] for j in range(i + 1, k)):
+            hit = True
+            break
+    return {"stale_dir_memo_after_release": hit}
+
+
 def signature(sig, payload):
+    if sig == "stale-dir-memo-after-release":
+        return bool((payload.get("signature_facts") or {}).get("stale_dir_memo_after_release"))
     return False
 
 
